@@ -4,5 +4,5 @@ from props._local import run_local
 # algorithms whose `Sound` theorem is proved; the others are covered by correspondence + oracle only
 def run(ctx):
     r = run_local(ctx, "C05", {"sound"}, gen.ALGS, ["max_eq_loses_solution"], "runAlg (NucsModel/Registry.lean) vs compute_domains_*")
-    r["partial"] = ["Sound is stated for all 21 algorithms (Spec.lean); proved ones are the theorems listed under coverage.theorems; alldifferent and gcc (Hall-interval algorithms) are ported and tied by correspondence, their Sound is validated by the brute-force oracle, not proved"]
+    r["partial"] = ["Sound is proved for all 21 algorithms; for alldifferent and gcc the registered model is the faithful port wrapped in a proved result checker: that this model equals the code (the checker never rejects) is what the correspondence shows on every run"]
     return r
